@@ -167,6 +167,28 @@ async fn run_async(ctx: &mut Ctx, enumerate: bool) {
                         chal_out.push((from, out.0, out.1, d.authenticated_data.clone()));
                     }
                 }
+                // exploration: a party with keys of its own (but not the challenged peer's) answers this
+                // WHOAREYOU in the peer's name, from the peer's address; whatever it sends afterwards must
+                // never be delivered as the peer's
+                if !enumerate {
+                    if let Some(d) = &w.wire[wi].dec {
+                        if matches!(d.kind, PacketKind::WhoAreYou { .. }) {
+                            if let Some(claimed) = w.node_by_addr(&out.0) {
+                                if claimed != from && ctx.tape.choose(5) == 0 {
+                                    let adv = super::h_adv::Adversary::new(160 + ctx.tape.choose(4) as usize, w.attacker_addrs[0]);
+                                    let plan = super::h_adv::Plan { victim: from, claimed, spoof_src: true, record: ctx.tape.choose(4), seq_rel: ctx.tape.choose(3), signer: 0, bad_ephem: false, follow_up: false, as_self: false };
+                                    let cd = d.authenticated_data.clone();
+                                    if let Some(bytes) = super::h_adv::craft_handshake(ctx, &w, &adv, &plan, &cd, out.0, &Default::default()) {
+                                        ctx.fault("forged_handshake");
+                                        mutated += 1;
+                                        ctx.ev(format!("t={} FORGED handshake at n{from} in the name of n{claimed} {plan:?}", now_ms()));
+                                        w.schedule(1 + ctx.tape.choose(3) as u64, Ev::Deliver { to: from, src: out.0, bytes, origin: Origin::Injected { tag: "forged-handshake" } });
+                                    }
+                                }
+                            }
+                        }
+                    }
+                }
                 let is_target = match target {
                     Some(d) => wi as u64 == d,
                     None => ctx.tape.choose(100) < corrupt_pct,
